@@ -145,7 +145,22 @@ SetHiddenKV ==
       /\ \E i \in Pick(KVKeysOf(b)), n \in Pick(HiddenNames) :
            Commit([k |-> "sethiddenkv", path |-> p, kv |-> b.items[i][1], key |-> n], cur)
 
-Edit == done /\ nedits < MaxEdits /\ (SetHidden \/ SetHiddenKV \/ SetAttr \/ DelKey \/ AddChild \/ RemoveChild \/ ReorderChildren \/ ReadMissing)
+\* mappyfile.update(d, patch) with a patch that reaches the block at path p (None placeholders skip the
+\* earlier list items), sets / replaces one keyword there and deletes another one with the '__delete__' marker.
+\* Contract (C18): replace keeps the position, a new key goes last, the marked key disappears, all else untouched.
+UpdatePatch ==
+    \E p \in Pick(BlockPaths(cur)) :
+      LET b == GetAt(cur, p) IN
+      /\ AttrSlots(b.type) # {}
+      /\ \E s \in Pick(AttrSlots(b.type)) : \E v \in Pick(ValuesOf(s)), kc \in Pick(Cases) :
+          \E di \in Pick(0..Len(b.items)) :
+           LET delkey == IF di = 0 \/ b.items[di][1] = s[2] THEN "" ELSE b.items[di][1]
+               after  == SetKeepPos(IF delkey = "" THEN b.items ELSE DelKeyOf(b.items, delkey), s[2], ValOf(v))
+           IN  /\ v.sh \notin {"bool"} \/ TRUE
+               /\ Commit([k |-> "update", path |-> p, key |-> s[2], kc |-> kc, val |-> v, pv |-> ValOf(v), delkey |-> delkey],
+                         SetAt(cur, p, WithItems(b, after)))
+
+Edit == done /\ nedits < MaxEdits /\ (UpdatePatch \/ SetHidden \/ SetHiddenKV \/ SetAttr \/ DelKey \/ AddChild \/ RemoveChild \/ ReorderChildren \/ ReadMissing)
 
 EFinish ==
     /\ ~done
